@@ -470,7 +470,7 @@ ExpBucketRT(c, zd) ==
 ExpDuration(c) ==
   LET r == DurParse(c.x) IN
   IF r.k = "ok" THEN Val(Itoa(r.v)) ELSE IF r.k = "err" THEN Val(mPARSE) ELSE AnyV
-IntInDurRange(x) == ParseIntOK(x) /\ Len(x) <= 10 /\ AbsI(ParseIntVal(x)) <= DurLimit
+IntInDurRange(x) == ParseIntOK(x) /\ Len(x) <= (IF x[1] \in {43, 45} THEN 10 ELSE 9)
 ExpDurFormat(c) ==
   IF ~ParseIntOK(c.x) THEN Val(mTYPE)
   ELSE IF ~IntInDurRange(c.x) THEN AnyV ELSE Val(DurText(ParseIntVal(c.x)))
@@ -486,7 +486,9 @@ Expect(c) ==
        [] c.f = "durrt" -> ExpDurRT(c)
        [] c.f = "fmtdur" -> ExpFmtDur(c)
   ELSE LET zd == Zone(EffZone(c)) IN
-       IF zd.kind = "bogus" THEN (IF c.f \in {"timeformat", "timeattr", "time", "buckettime"} THEN CErr(mPARSE) ELSE AnyV)
+       IF zd.kind = "bogus" THEN    \* an unknown zone is a compile error (when nothing else is wrong with the call)
+          (IF c.f \in {"timeformat", "time"} \/ (c.f = "timeattr" /\ c.b \in AttrNames) \/ (c.f = "buckettime" /\ BucketKind(c.b) # "none")
+           THEN CErr(mPARSE) ELSE AnyV)
        ELSE IF ~Modelled(zd) THEN AnyV
        ELSE CASE c.f = "timeformat" -> ExpFormat(c, zd)
               [] c.f = "timeattr"   -> ExpAttr(c, zd)
